@@ -10,6 +10,7 @@
 import Model.IR
 import Model.CoreLemmas
 import Model.Retry
+import Model.Inproc
 namespace Props.C12
 open Model
 
@@ -89,5 +90,54 @@ theorem rejection_leaves_dialer_redialling (s : State) (now : Nat) (d : Nat) (x 
 /-- the comparison table never admits a hang or a panic, and demands success once the cause is removed -/
 theorem follow_up_never_hangs (kind : String) : Retry.admits kind "hang" = false ∧ Retry.admits kind "panic" = false :=
   ⟨Retry.never_hang kind, Retry.never_panic kind⟩
+
+/-! ### inproc: a failed Listen or Dial leaves everything as it was and can be retried (`Model/Inproc.lean`) -/
+
+/-- a Listen refused because the address is taken, and a Dial refused because nobody listens, change nothing -/
+theorem inproc_failed_calls_change_nothing (s : Inproc.State) (lid addr sf pr : Nat) (hc : lid ∉ s.closedL)
+    (hb : ∃ b ∈ s.bound, b.addr = addr) :
+    Inproc.step s (.listen lid addr sf pr) = [(s, Inproc.render (some "addrinuse") [])] := by
+  have h1 : s.closedL.contains lid = false := by simpa using hc
+  have h2 : (s.bound.any (fun b => b.addr = addr)) = true := by
+    obtain ⟨b, hb1, hb2⟩ := hb
+    simp only [List.any_eq_true]
+    exact ⟨b, hb1, by simpa using hb2⟩
+  simp only [Inproc.step, h1, h2]
+  simp
+
+/-- … and the Listen that failed succeeds as soon as the listener that owns the address has been closed: in the state
+    right after that Close (any reachable state before it) the same call binds the address -/
+theorem inproc_listen_succeeds_once_the_owner_closed (s : Inproc.State) (hr : Inproc.Reach s) (b : Inproc.Bind)
+    (hb : b ∈ s.bound) (lid sf pr : Nat) (hne : lid ≠ b.lid) (hc : lid ∉ s.closedL) :
+    ∃ s' out, Inproc.step (Inproc.closeLState s b.lid) (.listen lid b.addr sf pr) = [(s', out)] ∧
+      (∃ b' ∈ s'.bound, b'.addr = b.addr ∧ b'.lid = lid) ∧ out.head? = some "res:ok" := by
+  have inv := Inproc.reach_inv hr
+  have hfree : ∀ b' ∈ (Inproc.closeLState s b.lid).bound, b'.addr ≠ b.addr := by
+    intro b' hb' he
+    simp only [Inproc.closeLState, List.mem_filter] at hb'
+    obtain ⟨h1, h2⟩ := hb'
+    have hne' : b'.lid ≠ b.lid := by simpa using h2
+    have : b' = b := Inproc.nodup_map_inj _ _ inv.boundNodup b' h1 b hb he
+    exact hne' (this ▸ rfl)
+  have h1 : (Inproc.closeLState s b.lid).closedL.contains lid = false := by
+    have : lid ∉ (Inproc.closeLState s b.lid).closedL := by
+      simp only [Inproc.closeLState, Inproc.mem_addNew]
+      exact fun hx => hx.elim hc hne
+    simpa using this
+  have h2 : ((Inproc.closeLState s b.lid).bound.any (fun x => x.addr = b.addr)) = false := by
+    cases hany : ((Inproc.closeLState s b.lid).bound.any (fun x => x.addr = b.addr))
+    · rfl
+    · simp only [List.any_eq_true] at hany
+      obtain ⟨x, hx1, hx2⟩ := hany
+      exact absurd (by simpa using hx2) (hfree x hx1)
+  refine ⟨Inproc.listenOk (Inproc.closeLState s b.lid) lid b.addr sf pr,
+    Inproc.render (some "ok") (((Inproc.closeLState s b.lid).parked.filter
+      (fun p => p.addr = b.addr ∧ ¬ (p.self = pr ∧ p.peer = sf))).map (fun p => (p.call, "badproto"))), ?_, ?_, ?_⟩
+  · simp only [Inproc.step, h1, h2]
+    simp
+  · refine ⟨Inproc.Bind.mk b.addr lid sf pr, ?_, rfl, rfl⟩
+    simp [Inproc.listenOk]
+  · simp only [Inproc.render, List.cons_append, List.nil_append, List.head?_cons]
+    rfl
 
 end Props.C12
